@@ -419,6 +419,10 @@ func (m *c29Model) voterAgreed(p *c29P, h uint32) {
 			if t := m.Props[p.Target]; t != nil && t.Status != c29Terminated && t.Status != c29Finished {
 				m.setStatus(t, c29Terminated)
 				m.event("terminated_by_close_proposal")
+			} else if t != nil {
+				// the target ended on its own (owner's Terminated / Finalized tracking) while the CloseProposal was being voted on: nothing is left to close or release
+				m.event("close_proposal_passed_on_already_ended_target")
+				m.event("close_proposal_passed_on_already_ended_target:" + t.Status)
 			}
 		case payload.ChangeProposalOwner:
 			if t := m.Props[p.Target]; t != nil {
